@@ -3,6 +3,11 @@
 //! under-lock event log is (1) replayed through the Lean transition system (`q-replay`: every event
 //! enabled, every snapshot equal, every take maximal) and (2) checked directly: exactly-once,
 //! priority order, capacity bound, close semantics, termination (watchdog).
+//!
+//! Admission rule since the repair of D5 (commit c0ac607): an item is admitted iff the queue is open
+//! and (it fits on top of what is queued or the queue is empty). The capacity clause is therefore
+//! "bytes queued <= capacity, or exactly one item is queued and it alone exceeds the capacity", which
+//! is "bytes queued <= capacity" whenever each item individually fits.
 use crate::report::Report;
 use crate::rng::Rng;
 use crate::Ctx;
@@ -148,8 +153,10 @@ const CAPS: &[usize] = &[0, 1, 2, 3, 4, 7, 10, 16, 50, 100, 1000, 1 << 20, 1 << 
 
 fn gen_size(rng: &mut Rng, cap: usize, blocking: bool) -> usize {
     let capc = cap.min(1 << 41);
-    if !blocking && rng.chance(1, 12) {
-        return capc + 1 + rng.below(5) as usize; // does not fit: try_push must say WouldBlock
+    if rng.chance(1, if blocking { 16 } else { 12 }) {
+        // larger than the whole capacity: admitted only into the empty queue (push sleeps on a
+        // non-empty one, try_push says WouldBlock there)
+        return capc + 1 + rng.below(5) as usize;
     }
     if capc == 0 {
         return 0;
@@ -551,12 +558,15 @@ struct Stats {
     eos: u64,
     /// a woken producer went back to sleep while another sleeping producer's item would fit
     fitting_left_asleep: u64,
+    /// an item larger than the capacity was admitted into the empty queue / slept on a non-empty one
+    oversize_admitted: u64,
+    oversize_waits: u64,
 }
 
 /// The property, recomputed from the log alone (no model): returns (signature, message) failures.
 fn oracle_log(cap: usize, evs: &[AEv]) -> (Vec<(&'static str, String)>, Stats) {
     let mut fails: Vec<(&'static str, String)> = vec![];
-    let mut st = Stats { wait_nf: 0, wait_ne: 0, wake_after_close: 0, refuses: 0, wouldblocks: 0, ties: 0, takes: 0, admits: 0, eos: 0, fitting_left_asleep: 0 };
+    let mut st = Stats { wait_nf: 0, wait_ne: 0, wake_after_close: 0, refuses: 0, wouldblocks: 0, ties: 0, takes: 0, admits: 0, eos: 0, fitting_left_asleep: 0, oversize_admitted: 0, oversize_waits: 0 };
     let mut sleeping: HashMap<usize, u64> = HashMap::new(); // producers inside not_full.wait: tid -> size
     let mut last_code: HashMap<usize, &'static str> = HashMap::new();
     let mut queued: Vec<(u64, u64, u64)> = vec![]; // (id, key, size)
@@ -575,8 +585,11 @@ fn oracle_log(cap: usize, evs: &[AEv]) -> (Vec<(&'static str, String)>, Stats) {
                 if !ever.insert(e.id) {
                     fails.push(("queue-exactly-once", format!("event {i}: item {} admitted twice", e.id)));
                 }
-                if sum + e.size > cap {
-                    fails.push(("queue-capacity", format!("event {i}: admitted {} bytes on top of {} with capacity {}", e.size, sum, cap)));
+                if sum + e.size > cap && !queued.is_empty() {
+                    fails.push(("queue-capacity", format!("event {i}: admitted {} bytes on top of {} bytes in {} items with capacity {}", e.size, sum, queued.len(), cap)));
+                }
+                if e.size > cap {
+                    st.oversize_admitted += 1;
                 }
                 queued.push((e.id, e.key, e.size));
             }
@@ -608,8 +621,8 @@ fn oracle_log(cap: usize, evs: &[AEv]) -> (Vec<(&'static str, String)>, Stats) {
             }
             "tb" => {
                 st.wouldblocks += 1;
-                if closed || sum + e.size <= cap {
-                    fails.push(("queue-wouldblock", format!("event {i}: WouldBlock with {}+{} <= {} or closed={}", sum, e.size, cap, closed)));
+                if closed || sum + e.size <= cap || queued.is_empty() {
+                    fails.push(("queue-wouldblock", format!("event {i}: WouldBlock with {}+{} <= {} or empty ({} items) or closed={}", sum, e.size, cap, queued.len(), closed)));
                 }
             }
             "ls" => {
@@ -629,8 +642,11 @@ fn oracle_log(cap: usize, evs: &[AEv]) -> (Vec<(&'static str, String)>, Stats) {
                     st.fitting_left_asleep += 1;
                 }
                 sleeping.insert(e.t, e.size);
-                if closed || sum + e.size <= cap {
-                    fails.push(("queue-wait", format!("event {i}: push waits with {}+{} <= {} or closed={}", sum, e.size, cap, closed)));
+                if closed || sum + e.size <= cap || queued.is_empty() {
+                    fails.push(("queue-wait", format!("event {i}: push waits with {}+{} <= {} or empty ({} items) or closed={}", sum, e.size, cap, queued.len(), closed)));
+                }
+                if e.size > cap {
+                    st.oversize_waits += 1;
                 }
             }
             "lw" => {
@@ -653,8 +669,9 @@ fn oracle_log(cap: usize, evs: &[AEv]) -> (Vec<(&'static str, String)>, Stats) {
         last_code.insert(e.t, e.code);
         // snapshot logged by the code = state recomputed from the linearisation
         let sum: u64 = queued.iter().map(|q| q.2).sum();
-        if e.cur > cap {
-            fails.push(("queue-capacity", format!("event {i}: current_size {} > capacity {}", e.cur, cap)));
+        // within capacity, or exactly one queued item which alone exceeds the capacity
+        if e.cur > cap && !(queued.len() == 1 && queued[0].2 > cap) {
+            fails.push(("queue-capacity", format!("event {i}: current_size {} > capacity {} with {} items queued", e.cur, cap, queued.len())));
         }
         if e.cur != sum || e.len != queued.len() as u64 || e.closed != closed {
             fails.push(("queue-accounting", format!("event {i} ({}): logged (len {}, cur {}, closed {}) but the history gives (len {}, cur {}, closed {})",
@@ -763,6 +780,8 @@ fn one_run(ctx: &mut Ctx, rep: &mut Report, case: &Case, attempt: u64, selftest:
     rep.add("branch_wouldblock", st.wouldblocks);
     rep.add("branch_equal_priority_tie", st.ties);
     rep.add("branch_fitting_producer_left_asleep", st.fitting_left_asleep);
+    rep.add("branch_oversize_admitted_when_empty", st.oversize_admitted);
+    rep.add("branch_oversize_push_waits_nonempty", st.oversize_waits);
     rep.add("branch_spurious_or_double_wake", spurious);
     rep.add("events_total", evs.len() as u64);
     rep.add("takes_total", st.takes);
@@ -862,10 +881,16 @@ fn self_test(ctx: &mut Ctx, rep: &mut Report, case: &Case, evs: &[AEv], cj: &Val
             mutants.push(("accept-after-close", "queue-closed-admit", case.cap, m));
         }
     }
-    // the same log under a smaller capacity
-    let maxcur = evs.iter().map(|e| e.cur).max().unwrap_or(0);
-    if maxcur >= 1 {
-        mutants.push(("capacity-exceeded", "queue-capacity", (maxcur - 1) as usize, evs.to_vec()));
+    // the same log under a smaller capacity: one byte less than the largest total reached by an
+    // accept into a NON-empty queue (accepts into the empty queue are legal under any capacity)
+    let mut peak = 0u64;
+    for (i, e) in evs.iter().enumerate() {
+        if (e.code == "pa" || e.code == "ta") && e.len >= 2 && i > 0 {
+            peak = peak.max(e.cur);
+        }
+    }
+    if peak >= 1 {
+        mutants.push(("capacity-exceeded", "queue-capacity", (peak - 1) as usize, evs.to_vec()));
     }
     for (name, sig, cap, m) in mutants {
         rep.count("selftest_mutants");
@@ -940,8 +965,10 @@ fn scenario_two_producers(ctx: &mut Ctx, rep: &mut Report, k: u64) {
 /// checks) build a sum >= 2^64 wraps and the admission test passes. Informational counters only:
 /// (a) capacity 10, an item of 2^64-3 bytes on top of 5 bytes is accepted by try_push (the item does
 /// not fit on its own, so the property is silent); (b) capacity 2^64-1, two items of 2^64-1 bytes
-/// each fit on their own and are both accepted (sum > capacity). The Lean theorem
-/// `no_usize_overflow` shows neither can happen when every item fits and 2*capacity < 2^64.
+/// each fit on their own and are both accepted (sum > capacity). Unchanged by the repair of D5
+/// (the sum is evaluated first in both conditions). The Lean theorem `no_usize_overflow` shows that
+/// no sum wraps when every item has at most M bytes and max(capacity, M) + M < 2^64 (M = capacity:
+/// every item fits and 2*capacity < 2^64).
 fn scenario_usize_wrap(rep: &mut Report) {
     let q: MemoryBoundedQueue<Task> = MemoryBoundedQueue::new(10);
     let a = q.try_push(plain(1), 5).is_ok();
@@ -961,34 +988,62 @@ fn scenario_usize_wrap(rep: &mut Report) {
     }
 }
 
-/// Watchdog self-test = DESIGN §7 D5 on the real queue (Lean witness `oversize_blocks`): an item
-/// larger than the capacity blocks `push` for ever while the consumer sleeps on the empty queue.
+/// The repaired defect D5 (DESIGN §7; commit c0ac607) on the real queue, = the Lean examples under
+/// `oversize_admitted_when_empty`. Before the repair run (1) hung for ever (producer asleep on
+/// not_full with an empty queue, consumer asleep on not_empty); a hang is reported by the 10 s
+/// watchdog of `one_run` with signature "queue-hang".
+///  (1) capacity 4, consumer asleep on the empty queue, push of 6 bytes: admitted at once and taken;
+///  (2) capacity 4, 2 bytes queued, push of 6 bytes: sleeps, the take that empties the queue wakes it,
+///      it is admitted into the empty queue.
 fn scenario_oversize(ctx: &mut Ctx, rep: &mut Report) {
-    let case = scripted(2_000_000, 4, vec![vec![Op::Push(plain(1), 6)], vec![Op::Pull]]);
-    let out = run_case(&case, ctx.seed, Duration::from_millis(400));
+    let case = scripted(2_000_000, 4, vec![vec![Op::Sleep(3_000), Op::Push(plain(1), 6)], vec![Op::Pull]]);
+    let evs = one_run(ctx, rep, &case, 0, false);
+    let admitted = evs.iter().any(|e| e.code == "pa" && e.size == 6);
+    let waited = evs.iter().any(|e| e.code == "pw");
+    let taken = evs.iter().any(|e| e.code == "lt" && e.size == 6);
+    if admitted && !waited && taken {
+        rep.count("scenario_oversize_push_admitted_into_empty_queue");
+    } else if !evs.is_empty() {
+        rep.oracle_fail("queue-oversize", &format!("oversize push into the empty queue: admitted={admitted} waited={waited} taken={taken}"), case_json(&case, ctx.seed));
+    }
+    let case = scripted(
+        2_000_001,
+        4,
+        vec![vec![Op::TryPush(plain(1), 2), Op::Push(plain(2), 6)], vec![Op::Await(1), Op::Sleep(5_000), Op::TryPull, Op::Sleep(5_000), Op::TryPull]],
+    );
+    let evs = one_run(ctx, rep, &case, 0, false);
+    let w = evs.iter().position(|e| e.code == "pw" && e.size == 6);
+    let a = evs.iter().position(|e| e.code == "pa" && e.size == 6);
+    match (w, a) {
+        (Some(w), Some(a)) if w < a && evs[a].len == 1 => rep.count("scenario_oversize_push_waits_then_admitted_after_drain"),
+        (None, Some(_)) => rep.count("scenario_oversize_push_second_variant_not_set_up"),
+        _ if evs.is_empty() => {}
+        _ => rep.oracle_fail("queue-oversize", &format!("oversize push on a non-empty queue: wait at {w:?}, accept at {a:?}"), case_json(&case, ctx.seed)),
+    }
+}
+
+/// Watchdog self-test: a `pull` on an open empty queue with no producer blocks by design; the
+/// watchdog (here 300 ms) must report it, and `close` must release it.
+fn selftest_watchdog(ctx: &mut Ctx, rep: &mut Report) {
+    let case = scripted(2_000_002, 4, vec![vec![Op::Pull]]);
+    let out = run_case(&case, ctx.seed, Duration::from_millis(300));
     let cj = case_json(&case, ctx.seed);
-    rep.case(&(case.idx, 0u64), true);
-    if out.hung.len() != 2 {
-        rep.oracle_fail("queue-selftest", &format!("watchdog: expected both threads stuck, stuck = {:?}", out.hung), cj);
+    rep.case(&(case.idx, 0u64), false);
+    if out.hung != vec![0] {
+        rep.oracle_fail("queue-selftest", &format!("watchdog: expected the lonely pull to be stuck, stuck = {:?}", out.hung), cj);
         return;
     }
     rep.count("selftest_watchdog_fired");
-    rep.count("scenario_oversize_push_blocks_observed");
     match annotate(&case, &out) {
         Ok(evs) => {
-            let (fails, _) = oracle_log(case.cap, &evs);
-            for (sig, msg) in fails {
-                rep.oracle_fail(sig, &msg, cj.clone());
+            let codes: Vec<&str> = evs.iter().map(|e| e.code).collect();
+            if codes != vec!["le", "lw"] {
+                rep.oracle_fail("queue-selftest", &format!("watchdog scenario: unexpected log {codes:?}"), cj.clone());
             }
-            let trace = trace_string(&evs);
-            if let Some(m) = ctx.ask(&format!("q-replay {} {} {}", case.cap, 2, trace)) {
+            if let Some(m) = ctx.ask(&format!("q-replay {} {} {}", case.cap, 1, trace_string(&evs))) {
                 if !m.starts_with(&format!("ok {} ", evs.len())) {
-                    rep.disagree("q-replay", cj.clone(), &m, &format!("ok {} _", evs.len()));
+                    rep.disagree("q-replay", cj, &m, &format!("ok {} _", evs.len()));
                 }
-            }
-            let last: Vec<&str> = evs.iter().map(|e| e.code).collect();
-            if !(last.contains(&"pw") && last.contains(&"lw")) {
-                rep.oracle_fail("queue-selftest", &format!("oversize scenario: unexpected log {last:?}"), cj);
             }
         }
         Err(msg) => rep.oracle_fail("queue-log", &msg, cj),
@@ -999,7 +1054,7 @@ pub fn run(ctx: &mut Ctx) -> Report {
     let mut rep = Report::new(
         "C06",
         "real MemoryBoundedQueue<Task> driven by 1..8 producers, 1..8 consumers and one closer (<= 16 threads), seeded programs of \
-         <= 200 push/try_push/pull/try_pull each, capacities 0..2^40, sizes 0..cap (oversize only via try_push), frequent equal \
+         <= 200 push/try_push/pull/try_pull each, capacities 0..2^40, sizes 0..cap and, for about 1 in 14 items, cap+1..cap+5 (admitted only into the empty queue), frequent equal \
          priorities, seeded yields/sleeps before every lock acquisition; every run's under-lock log is replayed through the Lean \
          transition system and checked directly; non-trivial = at least one blocking wait and one take; distinct by (case, schedule)",
     );
@@ -1023,6 +1078,7 @@ pub fn run(ctx: &mut Ctx) -> Report {
         scenario_two_producers(ctx, &mut rep, k);
     }
     scenario_oversize(ctx, &mut rep);
+    selftest_watchdog(ctx, &mut rep);
     scenario_usize_wrap(&mut rep);
     rep.notes.push("thread schedules are not reproducible; a replay re-runs the same programs under many perturbed schedules".to_string());
     rep
